@@ -664,6 +664,10 @@ def vega_monitor(ctx):
                     if not mixed and (name not in pure_ok or kw.get("hide_samples")):
                         continue      # all-sample triangles: hide_samples leaves nothing to plot
                     plan.append((ns, mixed, t, name, kw, None))
+    if ctx.quick:      # the thorough battery contains it anyway
+        t1 = plot_triangle(1, True)
+        plan.append((1, True, t1, "plot_sunset", {"uncertainty": False}, None))
+        plan.append((1, True, t1, "plot_sunset", {"uncertainty": False, "metric_spec": ["Paid Incremental ATA", "Reported Incremental ATA"]}, None))
     # facet titles: slices differing in each single attribute (sharing non-None values of the others) and combinations
     names = list(plot_options(2))
     for i, tk in enumerate(TITLE_KINDS):
@@ -689,12 +693,19 @@ def vega_monitor(ctx):
         res[key] = "ok" if r is None else r
         ctx.hist("monitor:" + ("ok" if r is None else "FAIL"))
         if r is not None:
+            fc = None
+            ms_ = kw.get("metric_spec")
+            if (name == "plot_sunset" and kw.get("uncertainty") is False and ns * (len(ms_) if isinstance(ms_, list) else 1) == 1
+                    and "interactive()" in str(r.get("raised", ""))):
+                # the figure is a single chart (1 slice x 1 metric): the empty LayerChart placeholder used for
+                # uncertainty=False cannot be made interactive
+                fc = {"kind": "plot_sunset_no_uncertainty_single_chart"}
             ctx.violation("impl-violation",
                           f"{name}(**{kw}) on a {ns}-slice {'observed+predicted' if mixed else 'all-sample'} triangle "
                           f"({N_SAMPLES} samples) does not give a valid Vega-Lite spec with one rightly titled chart per slice: {json.dumps(r, default=str)[:600]}",
                           {"plot_call": {"method": name, "kwargs": kw, "n_slices": ns, "mixed": mixed,
                                          "n_samples": N_SAMPLES, "title_kind": tk}, "triangle": tri_spec(t), "failure": r},
-                          found_input=True)
+                          found_input=True, finding_class=fc)
     ctx.extra["vega_lite_monitor"] = {"calls": len(res), "failed": {k: v for k, v in res.items() if v != "ok"},
                                       "unsupported_at_baseline": unsupported}
     ctx.log(f"Vega-Lite monitor: {len(res)} plot calls, {sum(1 for v in res.values() if v != 'ok')} failing; "
